@@ -243,7 +243,7 @@ func thrScenarios(tier string) []*mc.Scenario {
 		}
 		sc.Monitors = func(w *mc.World) []mc.Monitor {
 			return allMons(func() mc.Monitor {
-				return &mc.ThrottleMon{Limit: n,
+				return &mc.ThrottleMon{Limit: n, StrictSlots: true,
 					Governed: func(r *mc.Req) bool { return strings.HasPrefix(r.Subject, "get.") },
 					Throttles: func(w *mc.World) int {
 						k := 0
@@ -261,7 +261,88 @@ func thrScenarios(tier string) []*mc.Scenario {
 						}
 						return k
 					},
-					Expected: func(w *mc.World) int { return 6 },
+					Expected: func(w *mc.World) int {
+						// root brings 5 resources, col one more (its items are shared with root)
+						n := 0
+						for _, c := range w.Conns {
+							sent := map[string]bool{}
+							for _, p := range c.Client.Pending {
+								sent[p.Method] = true
+							}
+							for _, r := range c.Client.Resp {
+								if r.Req != nil {
+									sent[r.Req.Method] = true
+								}
+							}
+							if sent["subscribe.test.root"] {
+								n += 5
+							}
+							if sent["subscribe.test.col"] {
+								n++
+							}
+						}
+						return n
+					},
+				}
+			})(w)
+		}
+		out = append(out, sc)
+	}
+	// reference throttle while a query event holds the resource's queue
+	for _, n := range []int{1, 2} {
+		n := n
+		sc := &mc.Scenario{
+			Name:  fmt.Sprintf("thr/reference-query/N%d", n),
+			Props: []string{"C19"},
+			Cfg:   func(c *server.Config) { c.ReferenceThrottle = n },
+			Init: func(w *mc.World) {
+				queryInit(map[string]string{})(w)
+				w.Svc.Collection("test.qc", ref("test.q?b"), ref("test.q?c"), ref("test.q?a"))
+			},
+			Conns: []mc.ConnSpec{conn(latest, req("subscribe.test.q?a", 0), req("subscribe.test.qc", 1))},
+			Threads: []mc.Thread{{Name: "svc", Ops: []mc.Op{
+				op("mutate+query", 1, func(w *mc.World) {
+					w.Svc.Silent("test.q?a", func(r *mc.SvcRes) { r.M["v"] = `1` })
+					w.Svc.QueryEvent("test.q", "_QE_1")
+				}),
+			}}},
+			Menu:  queryMenu,
+			Bound: map[string]int{"quick": 2, "thorough": 3},
+		}
+		sc.Monitors = func(w *mc.World) []mc.Monitor {
+			return allMons(queryMon, func() mc.Monitor {
+				return &mc.ThrottleMon{Limit: n, StrictSlots: true,
+					Governed: func(r *mc.Req) bool { return strings.HasPrefix(r.Subject, "get.") },
+					Throttles: func(w *mc.World) int {
+						k := 0
+						for _, c := range w.Conns {
+							k += len(c.Client.Pending) + len(c.Client.Resp)
+						}
+						return k
+					},
+					Expected: func(w *mc.World) int {
+						if len(w.Svc.Deleted) > 0 {
+							return -1 // a deleted query resource is fetched again
+						}
+						n := 0
+						c := w.Conns[0]
+						sent := map[string]bool{}
+						for _, p := range c.Client.Pending {
+							sent[p.Method] = true
+						}
+						for _, r := range c.Client.Resp {
+							if r.Req != nil {
+								sent[r.Req.Method] = true
+							}
+						}
+						if sent["subscribe.test.q?a"] {
+							n++
+						}
+						if sent["subscribe.test.qc"] {
+							n += 3 // qc, q?b, q?c
+						}
+						return n
+					},
 				}
 			})(w)
 		}
@@ -412,6 +493,26 @@ func ordScenarios(tier string) []*mc.Scenario {
 			}},
 		},
 	})
+	// a second subscribe to a resource that is re-queueing behind a slow reference load
+	out = append(out, &mc.Scenario{
+		Name: "ord/resubscribe-while-loading", Props: []string{"C03"}, Init: func(w *mc.World) {
+			basicInit(w)
+			w.Svc.Collection("test.c", ref("test.x"))
+			w.Svc.Model("test.m", "n", `0`)
+		}, Monitors: allMons(seqMon),
+		Slow: func(r *mc.Req) bool { return r.Subject == "get.test.y" },
+		Conns: []mc.ConnSpec{
+			conn(latest, req("subscribe.test.c", 0), req("subscribe.test.m", 0), req("subscribe.test.c", 2), req("subscribe.test.m", 2), req("get.test.c", 2)),
+		},
+		Threads: []mc.Thread{
+			{Name: "svc", Ops: []mc.Op{
+				op("c.add0=y", 1, func(w *mc.World) { w.Svc.Add("test.c", 0, ref("test.y")) }),
+				op("m.y=y", 1, func(w *mc.World) { w.Svc.Change("test.m", "y", ref("test.y")) }),
+			}},
+			{Name: "streamc", Ops: stream("test.c", 4, 1)},
+			{Name: "streamm", Ops: stream("test.m", 4, 1)},
+		},
+	})
 	// reset re-fetch in the middle of a stream (state events may be superseded)
 	out = append(out, &mc.Scenario{
 		Name: "ord/reset-window", Props: []string{"C03", "C12"}, Init: basicInit, Monitors: allMons(seqMonRelax),
@@ -544,6 +645,26 @@ func gcScenarios(tier string) []*mc.Scenario {
 			}}},
 		})
 	}
+	// one change event sets a reference to an uncached resource (slow get) and
+	// one to a resource the client holds only directly, which it then releases
+	out = append(out, &mc.Scenario{
+		Name: "gc/change-two-refs", Props: []string{"C02"}, Monitors: allMons(),
+		Init: func(w *mc.World) {
+			s := w.Svc
+			s.Model("test.m", "n", `0`)
+			s.Model("test.c", "n", `0`)
+			s.Model("test.d", "n", `0`)
+			s.Collection("test.l")
+		},
+		Slow:  func(r *mc.Req) bool { return r.Subject == "get.test.d" },
+		Conns: []mc.ConnSpec{conn(latest, req("subscribe.test.m", 0), req("subscribe.test.c", 0), req("subscribe.test.l", 0), req("unsubscribe.test.c", 2))},
+		Threads: []mc.Thread{{Name: "svc", Ops: []mc.Op{
+			op("m.a=d,b=c", 1, func(w *mc.World) { w.Svc.Change("test.m", "a", ref("test.d"), "b", ref("test.c")) }),
+			op("l.add=c", 1, func(w *mc.World) { w.Svc.Add("test.l", 0, ref("test.c")) }),
+			op("l.add=d", 1, func(w *mc.World) { w.Svc.Add("test.l", 0, ref("test.d")) }),
+			op("c.n=1", 3, func(w *mc.World) { w.Svc.Change("test.c", "n", `1`) }),
+		}}},
+	})
 	// references held through collections: add of an already sent child,
 	// removal while a loading parent references it
 	for _, v := range []string{latest, "1.2.0"} {
